@@ -78,7 +78,7 @@ class ChannelEngine(Engine):
                        'loss_natoms', 'loss_bounds', 'loss_atoms_section', 'loss_atoms_section_velocities_kept', 'stream_source', 'short_read_source', 'path_source',
                        'imageflags_written', 'tilted_cell', 'nonperiodic_dims', 'gapped_types', 'random_epoch',
                        'compared_cells_above_resolution', 'chained_transfer', 'poscar_cartesian', 'poscar_box_scale',
-                       'dump_scaled_columns', 'writer_prop_info_used', 'dest_path', 'dest_stream', 'table_with_id', 'io_error_load_raised', 'dump_two_position_forms', 'integer_typed_float_property', 'same_path_rewritten', 'system_with_own_atom_ids', 'poscar_rotated_cell', 'stream_positioned_past_an_earlier_frame']
+                       'dump_scaled_columns', 'writer_prop_info_used', 'dest_path', 'dest_stream', 'table_with_id', 'io_error_load_raised', 'dump_two_position_forms', 'integer_typed_float_property', 'same_path_rewritten', 'system_with_own_atom_ids', 'poscar_rotated_cell', 'stream_positioned_past_an_earlier_frame', 'dump_explicit_no_conversion_for_a_standard_property', 'integer_beyond_2_53_carried']
     rule = ('Each run draws a working-unit epoch (atomman default or seeded random, so that unit-column mix-ups cannot hide behind '
             'factors of one) and performs up to 8 transfers. A transfer builds a system (or reuses the system loaded by the previous '
             'transfer): LAMMPS-compatible cell, orthogonal or tilted, any origin, 1-40 atoms inside / outside / on faces, 1-4 types '
@@ -162,7 +162,10 @@ class ChannelEngine(Engine):
         for nm in props:
             ts, cls, positive = PINFO[nm]
             cnt = n * (int(np.prod(ts)) if ts else 1)
-            if cls == 'i':
+            if cls == 'i' and nm == 'tag' and r.random() < 0.3:
+                # identifiers that need all 64 bits (hashes, global ids of a large run): no float64 holds them
+                pv[nm] = [r.choice([2 ** 53 + 1, 2 ** 60 + 7, 2 ** 62 + 12345, 9007199254740993, r.randint(1, 9)]) for _ in range(cnt)]
+            elif cls == 'i':
                 pv[nm] = [r.randint(0 if not positive else 1, 9) for _ in range(cnt)]
             elif nm == 'charge' and r.random() < (0.6 if fmt_style in ('table', 'atom_dump') else 0.25):
                 pv[nm] = [r.randint(-3, 3) for _ in range(cnt)]         # whole charges: the array the caller builds is integer typed
@@ -235,7 +238,8 @@ class ChannelEngine(Engine):
             extra = r.sample(['charge', 'velocity', 'force', 'stress', 'tag', 'pe', 'm_id', 'mu', 'radius', 'torque', 'single', 'cell11',
                               'boximage'], r.randint(0, 4))
             op.update(units=r.choice(UNIT_STYLES[:-1]), posvar=r.choice(['pos', 'pos', 'spos', 'upos', 'supos', 'default', 'pos+upos', 'upos+pos', 'spos+pos', 'pos+supos']),
-                      use_prop_info=r.random() < 0.5, own_ids=r.random() < 0.3, prefixed=r.random() < 0.25)
+                      use_prop_info=r.random() < 0.5, own_ids=r.random() < 0.3, prefixed=r.random() < 0.25,
+                      raw_units=(r.random() < 0.25) and [r.random() < 0.6 for _ in range(12)])
             props = extra
         elif style == 'table':
             extra = r.sample(['charge', 'velocity', 'force', 'stress', 'tag', 'pe', 'disp', 'single', 'cell11'], r.randint(0, 4))
@@ -610,6 +614,8 @@ class ChannelEngine(Engine):
             # integers written as integers, no conversion: exact.  (An integer-typed property that is written through a unit
             # conversion - e.g. a charge that an earlier %.10g transfer rounded to whole numbers - is a float on the wire and
             # is held to the printed precision like any other float.)
+            if int(np.abs(w).max(initial=0)) > 2 ** 53:
+                ctx.probe('integer_beyond_2_53_carried')
             if not np.array_equal(g, w):
                 raise Violation('C08.L5', {'what': 'integer property differs', 'property': nm, 'got': g, 'want': w}, klass='propvalue/%s/%s' % (nm, klass))
             return
@@ -649,6 +655,18 @@ class ChannelEngine(Engine):
             if posvar == 'default':
                 kw['prop_name'] = ['atom_id', 'atype', 'pos'] + names
             ctx.probe('system_with_own_atom_ids')
+        STD = ('charge', 'velocity', 'force', 'mu', 'radius', 'torque', 'mass', 'diameter', 'ang_velocity', 'ang_momentum')
+        raw = set()
+        if op.get('raw_units') and posvar == 'default' and any(nm in STD for nm in names):
+            # the caller names the file unit of every column itself; None is documented as "no conversion", also for a
+            # property LAMMPS has a standard unit for.  Such a file can only be read with the writer's conversion table.
+            flags = list(op['raw_units'])
+            raw = {nm for k, nm in enumerate(nm2 for nm2 in names if nm2 in STD) if flags[k % len(flags)]}
+            if raw:
+                pn = ['atom_id', 'atype', 'pos'] + names
+                kw['prop_name'] = pn
+                kw['unit'] = [None, None, lu['length']] + [None if (nm in raw or nm not in STD) else self._unit_of(nm, units) for nm in names]
+                ctx.probe('dump_explicit_no_conversion_for_a_standard_property')
         text, pinfo = self._write(ctx, st, system, 'atom_dump', op, kw)
         if isinstance(pinfo, tuple):
             pinfo = pinfo[0]
@@ -667,7 +685,7 @@ class ChannelEngine(Engine):
                       'ITEM: ATOMS id type x y z\n1 1 0.5 0.5 0.5\n')
         src, closer = self._source(ctx, st, ptext, op, prefix=prefix)
         shaped_nonstandard = any(PINFO.get(nm, ((),))[0] != () and nm not in ('velocity', 'force', 'mu', 'torque', 'boximage') for nm in names)
-        use_pi = bool(op['use_prop_info']) or shaped_nonstandard
+        use_pi = bool(op['use_prop_info']) or shaped_nonstandard or bool(raw)
         lkw = {'lammps_units': units}
         if use_pi:
             lkw['prop_info'] = pinfo
@@ -720,8 +738,7 @@ class ChannelEngine(Engine):
                     raise Violation('C08.L5', {'what': 'carried property missing after load', 'property': nm}, klass='missing/%s/%s' % (nm, klass))
                 self._cmp_float(ctx, 'property ' + nm, got.atoms.view[nm], w, tol, 'C08.L5', 'prop/%s/%s/scaled' % (nm, klass))
                 continue
-            unit = self._unit_of(nm, units) if nm in ('charge', 'velocity', 'force', 'mu', 'radius', 'torque', 'mass', 'diameter',
-                                                      'ang_velocity', 'ang_momentum') else None
+            unit = self._unit_of(nm, units) if (nm in STD and nm not in raw) else None
             self._cmp_prop(ctx, st, nm, got, cur, unit, fmt, klass)
         if own_ids is not None:
             gid = got.atoms.view.get('atom_id')
